@@ -381,8 +381,12 @@ static Case gen_tree() {
 
 static Case gen_chain() {
   // a chain of containers to depth <= 100 with a leaf (or an empty container) at the bottom
-  size_t depth = 1 + vg::scaled(99);
-  if (vg::chance(1, 4)) depth = 100;
+  size_t depth;
+  switch (vg::below(6)) {
+    case 0: depth = 100; break;
+    case 1: depth = 50 + vg::below(50); break;
+    default: depth = 2 + vg::scaled(28); break;
+  }
   int budget = 3;
   Node cur = vg::chance(1, 3) ? (vg::coin() ? Node::list() : Node::dict()) : gen_node(6, budget);
   for (size_t k = 0; k < depth; k++) {
@@ -451,6 +455,6 @@ static void enum_fixed(Enum& e) {
 int main(int argc, char** argv) {
   std::vector<SubCheck> checks;
   checks.push_back({"tree", run_tree, gen_tree, 16000, 300000, 100, enum_fixed});
-  checks.push_back({"chain", run_tree, gen_chain, 320, 8000, 100, nullptr});
+  checks.push_back({"chain", run_tree, gen_chain, 480, 12000, 100, nullptr});
   return main_(argc, argv, checks);
 }
